@@ -1,25 +1,602 @@
-"""units abstract interpretation rules (filled in later)"""
+"""Units (change-of-variables) rules: C01.R5-R7, C02.R4, C03.R2, C08.R3, C10.R1, C19.R1u.
+
+Oracle (from the crate documentation  min 1/2 x'Px + q'x  s.t. Ax + s = b, and the
+equilibration comments, NOT from the code under test):
+    internal P = c D P D, q = c D q, A = E A D, b = E b
+    internal x = D^-1 x, s = E s, z = c E^-1 z; (x,s,z,tau,kappa) homogeneous of degree 1 (h)
+"""
+from fractions import Fraction
+from engine.mir import last_seg, strip_generics, AnchorError
+from engine.preds import canon, Walker
+from engine.units import Interp, U, S, V, M, ONE, TOP, umul, upow, ufmt, vfmt, elem_unit
+from .common import *
+
+D, E_, C, H = 'd', 'e', 'c', 'h'
+
+DECL = {
+    ('DefaultProblemData', 'P'): M(U(d=1), U(d=1), U(c=1)),
+    ('DefaultProblemData', 'q'): V(U(d=1, c=1)),
+    ('DefaultProblemData', 'A'): M(U(e=1), U(d=1), ONE),
+    ('DefaultProblemData', 'b'): V(U(e=1)),
+    ('DefaultProblemData', 'normq'): S(ONE),
+    ('DefaultProblemData', 'normb'): S(ONE),
+    ('DefaultEquilibrationData', 'd'): V(U(d=1)),
+    ('DefaultEquilibrationData', 'dinv'): V(U(d=-1)),
+    ('DefaultEquilibrationData', 'e'): V(U(e=1)),
+    ('DefaultEquilibrationData', 'einv'): V(U(e=-1)),
+    ('DefaultEquilibrationData', 'c'): S(U(c=1)),
+    ('DefaultVariables', 'x'): V(U(d=-1, h=1)),
+    ('DefaultVariables', 's'): V(U(e=1, h=1)),
+    ('DefaultVariables', 'z'): V(U(e=-1, c=1, h=1)),
+    ('DefaultVariables', 'τ'): S(U(h=1)),
+    ('DefaultVariables', 'κ'): S(U(c=1, h=1)),
+    ('DefaultResiduals', 'rx'): V(U(d=1, c=1, h=1)),
+    ('DefaultResiduals', 'rz'): V(U(e=1, h=1)),
+    ('DefaultResiduals', 'rτ'): S(U(c=1, h=1)),
+    ('DefaultResiduals', 'rx_inf'): V(U(d=1, c=1, h=1)),
+    ('DefaultResiduals', 'rz_inf'): V(U(e=1, h=1)),
+    ('DefaultResiduals', 'Px'): V(U(d=1, c=1, h=1)),
+    ('DefaultResiduals', 'dot_qx'): S(U(c=1, h=1)),
+    ('DefaultResiduals', 'dot_bz'): S(U(c=1, h=1)),
+    ('DefaultResiduals', 'dot_sz'): S(U(c=1, h=2)),
+    ('DefaultResiduals', 'dot_xPx'): S(U(c=1, h=2)),
+}
+UNITFREE_OWNERS = {'DefaultSettings', 'CoreSettings', 'DefaultInfo', 'DefaultSolution'}
+
+
+def decl(owner, field, key):
+    v = DECL.get((owner, field))
+    if v is not None:
+        return v
+    if owner in UNITFREE_OWNERS:
+        return S(ONE)
+    return None
+
+
+def ret_value(I, st, tr):
+    f = I.f
+    out = None
+    for b in tr:
+        for s_ in f.blocks[b]['s']:
+            if 'p' in s_ and 'rv' in s_ and s_['p']['l'] == 0 and not s_['p']['p']:
+                out = I.ev(st, f.sym_rvalue(s_['rv']))
+        c = f.call_at.get(b)
+        if c is not None and not c.dest['p'] and c.dest['l'] == 0:
+            out = I.call_value(st, ('call', c.callee.target_key or '?', tuple(f.sym_operand(a) for a in c.args), b), 0)
+    return out
+
+
+def report_findings(R, I, f, tag, allow_classes=('U-DE', 'U-C'), prefix=''):
+    seen = set()
+    for fd in I.findings:
+        if fd.kind not in allow_classes:
+            continue
+        k = '%s%s|%s%s' % (prefix, short(f.key), fd.key, tag)
+        if k in seen:
+            continue
+        seen.add(k)
+        R.bad(k, fd.msg, f.loc())
+    I.findings = []
+
+
+# ---------------------------------------------------------------------------
+# generic multiplicative summaries of crate-local helpers
+# ---------------------------------------------------------------------------
+
+class Summaries:
+    def __init__(self, F, E):
+        self.F, self.E = F, E
+        self.cache = {}
+
+    def placeholders(self, f):
+        init = {}
+        for i in range(1, f.argc + 1):
+            ty = f.local_ty(i)
+            key = 'self' if f.local_name(i) == 'self' else 'arg%d' % i
+            if 'CscMatrix' in ty:
+                init[key] = M({('$r', i): 1}, {('$c', i): 1}, {('$s', i): 1})
+            elif 'Option<' in ty:
+                init[key] = S({('$', i): 1}) if '[' not in ty and 'Vec' not in ty else V({('$', i): 1})
+            elif '[' in ty or 'Vec<' in ty:
+                init[key] = V({('$', i): 1})
+            elif ty in ('T', 'f64', 'f32', '&T'):
+                init[key] = S({('$', i): 1})
+        return init
+
+    def get(self, key):
+        if key in self.cache:
+            return self.cache[key]
+        self.cache[key] = None
+        f = self.F.by_key[key][0]
+        I = Interp(self.F, self.E, f, decl)
+        self.install(I)
+        init = self.placeholders(f)
+        rows = []
+        for val, ret, st in I.run(init):
+            rows.append((val, {k: st.get(k) for k in init}, None))
+        self.cache[key] = (f, init, rows, list(I.findings))
+        return self.cache[key]
+
+    def install(self, I):
+        I.inline_effects = _InlineEffects(self, I)
+        I.inline = _InlineValues(self, I)
+
+
+def subst(val, env):
+    """replace placeholder symbols by caller units"""
+    if val is None:
+        return None
+
+    def su(u):
+        out = {}
+        for k, x in u.items():
+            if isinstance(k, tuple) and k[0] in ('$', '$r', '$c', '$s'):
+                r = env.get(k)
+                if r is None:
+                    return None
+                out = umul(out, r, 1, x)
+            else:
+                out = umul(out, {k: x})
+        return out
+    if val[0] in ('S', 'V'):
+        u = su(val[1])
+        return (val[0], u) if u is not None else None
+    if val[0] == 'M':
+        r, c, s = su(val[1]), su(val[2]), su(val[3])
+        if None in (r, c, s):
+            return None
+        return M(r, c, s)
+    return val
+
+
+class _InlineEffects(dict):
+    def __init__(self, summ, I):
+        self.summ, self.I = summ, I
+
+    def __contains__(self, key):
+        return key in self.summ.F.by_key and self._ok(key)
+
+    def _ok(self, key):
+        f = self.summ.F.by_key[key][0]
+        return f.dk in ('Fn', 'AssocFn') and not f.from_expansion and len(f.blocks) < 400
+
+    def __getitem__(self, key):
+        summ = self.summ
+
+        def eff(I, st, c, args):
+            r = summ.get(key)
+            if r is None:
+                return
+            f, init, rows, findings = r
+            env = {}
+            vals = [I.ev(st, a) for a in args]
+            for i, v in enumerate(vals, start=1):
+                if v is None:
+                    continue
+                if v[0] == 'M':
+                    env[('$r', i)], env[('$c', i)], env[('$s', i)] = v[1], v[2], v[3]
+                elif v[0] in ('S', 'V'):
+                    env[('$', i)] = v[1]
+            # select rows compatible with known Option discriminants
+            sel = []
+            for val, final, _ in rows:
+                ok = True
+                for k, x in val.items():
+                    if k.startswith('discr(arg') and k.endswith(')'):
+                        try:
+                            i = int(k[len('discr(arg'):-1])
+                        except ValueError:
+                            continue
+                        a = canon(args[i - 1])
+                        if a.startswith('Option::Some') and x != 1:
+                            ok = False
+                        if a.startswith('Option::None') and x == 1:
+                            ok = False
+                if ok:
+                    sel.append(final)
+            for i, a in enumerate(args, start=1):
+                pname = f.local_name(i)
+                key_i = 'self' if pname == 'self' else 'arg%d' % i
+                if key_i not in init:
+                    continue
+                ty = f.local_ty(i)
+                if not (ty.startswith('&mut') or ty.startswith('*mut')):
+                    continue
+                outs = [subst(fin.get(key_i), env) for fin in sel]
+                if outs and all(o == outs[0] for o in outs):
+                    I.set_place(st, a, outs[0])
+                else:
+                    I.set_place(st, a, TOP)
+            I.findings.extend(findings)
+        return eff
+
+
+class _InlineValues(dict):
+    def __init__(self, summ, I):
+        self.summ, self.I = summ, I
+
+    def __contains__(self, key):
+        return key in self.summ.F.by_key and self.summ.F.by_key[key][0].name in ('get_normq', 'get_normb')
+
+    def __getitem__(self, key):
+        return lambda I, st, s, depth: S(ONE)
+
+
+# ---------------------------------------------------------------------------
+# rules
+# ---------------------------------------------------------------------------
+
+def mk(ctx, cfg, f):
+    F, E = ctx.facts(cfg), ctx.eff(cfg)
+    I = Interp(F, E, f, decl)
+    Summaries(F, E).install(I)
+    return I
+
+
+def residual_definitions(R, ctx, cfg, tag):
+    F = ctx.facts(cfg)
+    f = F.one(name='update', adt='DefaultResiduals')
+    I = mk(ctx, cfg, f)
+    rows = I.run({})
+    R.check(len(rows) >= 1, 'residuals-paths' + tag, 'no path through Residuals::update')
+    for val, ret, st in rows:
+        for fld in ('rx', 'rz', 'rτ', 'rx_inf', 'rz_inf', 'Px', 'dot_qx', 'dot_bz', 'dot_sz', 'dot_xPx'):
+            got = st.get('self.%s' % fld)
+            want = DECL[('DefaultResiduals', fld)]
+            R.check(got == want, 'residual|%s%s' % (fld, tag),
+                    'Residuals::update leaves %s with unit %s, the definition requires %s (internal coordinates: P~d d c, A~e d, x~1/d, s~e, z~c/e)' % (
+                        fld, vfmt(got), vfmt(want)), f.loc())
+    report_findings(R, I, f, tag, ('U-DE', 'U-C', 'U-H'), 'combine|')
+
+
+REPORTED = ('cost_primal', 'cost_dual', 'res_primal', 'res_dual', 'gap_abs', 'gap_rel')
+
+
+def info_update(R, ctx, cfg, tag, known_prefix='U-C'):
+    F = ctx.facts(cfg)
+    f = F.one(name='update', adt='DefaultInfo')
+    I = mk(ctx, cfg, f)
+    finals = []
+    for val, ret, st in I.run({}):
+        finals.append(st)
+        for fld in REPORTED:
+            got = st.get('self.%s' % fld)
+            R.check(got == S(ONE), 'reported|%s%s' % (fld, tag),
+                    'Info::update stores %s with unit %s: the reported figure must be free of the equilibration (d, e, c) and '
+                    'of the homogenisation (tau) - it is what the user compares with the tolerances' % (fld, vfmt(got)), f.loc())
+        for fld in ('res_primal_inf', 'res_dual_inf'):
+            got = st.get('self.%s' % fld)
+            u = elem_unit(got)
+            de = {k: v for k, v in (u if u is not None else {}).items() if k not in (C, H)}
+            R.check(u is not None and not de, 'inf-residual-de|%s%s' % (fld, tag),
+                    '%s carries a leftover elementwise scaling: %s' % (fld, vfmt(got)), f.loc())
+    # unit mismatches inside the function: elementwise ones are always violations; c-mismatches are reported
+    # under their own keys (the infeasibility residual is a recorded known finding); h is checked at the sinks
+    for fd in I.findings:
+        if fd.kind == 'U-DE':
+            R.bad('mix|%s%s' % (fd.key, tag), fd.msg, f.loc())
+        elif fd.kind == 'U-C':
+            R.bad('U-C|DefaultInfo::update|%s%s' % (fd.key.split('|', 2)[1] + '|' + ('res_dual_inf' if 'Px' in fd.key else fd.key.split('|', 2)[2][:40]), tag), fd.msg, f.loc())
+    return finals
+
+
+def norm_caches(R, ctx, cfg, tag):
+    F = ctx.facts(cfg)
+    for nm, fld in (('get_normq', 'normq'), ('get_normb', 'normb')):
+        f = F.one(name=nm, adt='DefaultProblemData')
+        I = mk(ctx, cfg, f)
+        I.inline = {}
+        n = 0
+        for val, ret, ev, tr in Walker(f).leaves():
+            pass
+        w = Walker(f)
+        for val, ret, ev, tr in w.leaves():
+            if ret[0] == 'diverge':
+                continue
+            st = {}
+            I2 = mk(ctx, cfg, f)
+            I2.inline = {}
+            # replay this one leaf
+            for e in ev:
+                if e[0] == 'call':
+                    I2.apply_call(st, e[4])
+                elif e[0] == 'store':
+                    I2.set_place(st, f.sym_place(e[4]['p']), I2.ev(st, f.sym_rvalue(e[4]['rv'])))
+                elif e[0] == 'assign' and isinstance(e[4], dict):
+                    st['var:' + e[1]] = I2.ev(st, f.sym_rvalue(e[4]['rv']))
+            rv = ret_value(I2, st, tr)
+            n += 1
+            R.check(rv == S(ONE), 'norm|%s|%s%s' % (nm, 'cached' if any(v == 1 for k, v in val.items() if k.startswith('discr(')) else 'recomputed', tag),
+                    '%s returns a value with unit %s on the %s path: the norm of the user\'s linear term must not depend on the '
+                    'equilibration' % (nm, vfmt(rv), 'cached' if any(v == 1 for k, v in val.items() if k.startswith('discr(')) else 'recomputed'), f.loc())
+            stored = st.get('self.%s' % fld)
+            if stored is not None:
+                R.check(stored == S(ONE), 'norm-cache|%s%s' % (nm, tag), '%s caches a value with unit %s' % (nm, vfmt(stored)), f.loc())
+        R.check(n >= 2, 'norm-paths|%s%s' % (nm, tag), '%s has %d paths' % (nm, n))
+
+
+def unscale_units(R, ctx, cfg, tag):
+    F = ctx.facts(cfg)
+    f = F.one(name='unscale', adt='DefaultVariables')
+    I = mk(ctx, cfg, f)
+    seen = set()
+    for val, ret, st in I.run({}):
+        inf = val.get('arg3')
+        seen.add(inf)
+        got = {v: elem_unit(st.get('self.%s' % v)) for v in ('x', 's', 'z')}
+        for v, u in got.items():
+            de = {k: x for k, x in (u if u is not None else {'?': 1}).items() if k not in (C, H)}
+            R.check(u is not None and not de, 'returned-de|%s|%s%s' % (v, inf, tag),
+                    'after unscale (is_infeasible=%s) %s has unit %s: the returned vector is still weighted by the equilibration' % (inf, v, vfmt(st.get('self.%s' % v))), f.loc())
+        if inf == 0:
+            for v, u in got.items():
+                R.check(u == ONE, 'returned-user-units|%s%s' % (v, tag),
+                        'after unscale %s has unit %s, expected the user\'s coordinates (free of c and tau)' % (v, ufmt(u)), f.loc())
+            R.check(elem_unit(st.get('self.τ')) == ONE, 'tau-normalised' + tag, 'tau is not normalised to 1: %s' % vfmt(st.get('self.τ')), f.loc())
+        else:
+            us = [got['x'], got['s'], got['z']]
+            R.check(all(u is not None and u == us[0] for u in us), 'certificate-common-factor' + tag,
+                    'infeasibility certificate: x, s, z are scaled by different factors (%s): it is no longer a ray of the '
+                    'user\'s problem' % ', '.join('%s:%s' % (v, ufmt(u)) for v, u in got.items()), f.loc())
+    R.check(seen == {0, 1}, 'unscale-branches' + tag, 'unscale branches seen: %s' % sorted(seen, key=str))
+    report_findings(R, I, f, tag, ('U-DE',), 'combine|')
+
+
+def infeasibility_tests(R, ctx, cfg, tag, info_state):
+    """comparisons in is_primal/dual_infeasible: elementwise consistency always; the c-consistency is the recorded finding F5"""
+    F = ctx.facts(cfg)
+    for nm, dot in (('is_primal_infeasible', 'dot_bz'), ('is_dual_infeasible', 'dot_qx')):
+        f = F.one(name=nm, adt='DefaultInfo')
+        I = mk(ctx, cfg, f)
+        init = {}
+        for k in ('self.res_primal_inf', 'self.res_dual_inf'):
+            if info_state and info_state[0].get(k) is not None:
+                init[k] = info_state[0][k]
+        # tolerances are unit-free scalars
+        for i in (3, 4):
+            init['arg%d' % i] = S(ONE)
+        I.run(init)
+        # comparisons are evaluated lazily by the walker as atoms; force them
+        for val, ret, ev, tr in Walker(f).leaves():
+            for k in list(val.keys()):
+                pass
+        # evaluate each comparison atom explicitly
+        for c in f.calls:
+            if c.callee.name in ('lt', 'gt', 'le', 'ge'):
+                a = [f.sym_operand(x) for x in c.args]
+                I.arith(c.callee.name, [I.ev(init, a[0]), I.ev(init, a[1])], ('call', c.callee.name, tuple(a), c.bb))
+        for fd in I.findings:
+            if fd.kind == 'U-DE':
+                R.bad('mix|%s|%s%s' % (nm, fd.key, tag), fd.msg, f.loc())
+            elif fd.kind == 'U-C':
+                side = 'res' if 'res_' in fd.key else 'abs'
+                R.bad('U-C|DefaultInfo::%s|%s|%s%s' % (nm, dot, side, tag), fd.msg + ' (the test is applied to internally c-scaled inner products)', f.loc())
+        R.ok('tests-evaluated|%s%s' % (nm, tag))
+
+
+def equilibrate_invariant(R, ctx, cfg, tag):
+    F = ctx.facts(cfg)
+    f = F.one(name='equilibrate', adt='DefaultProblemData')
+    I = mk(ctx, cfg, f)
+    init = {
+        'self.equilibration.dinv': V({'work_d0': Fraction(1)}),
+        'self.equilibration.einv': V({'work_e0': Fraction(1)}),
+    }
+    n = 0
+
+    def check(I, val, ret, st, ev):
+        nonlocal n
+        if not any(e[0] in ('call', 'store') for e in ev):
+            return
+        n += 1
+        g = lambda k: st.get(k, I.lookup(st, _sym(k)))
+        ud = elem_unit(st.get('self.equilibration.d', DECL[('DefaultEquilibrationData', 'd')]))
+        ue = elem_unit(st.get('self.equilibration.e', DECL[('DefaultEquilibrationData', 'e')]))
+        uc = elem_unit(st.get('self.equilibration.c', DECL[('DefaultEquilibrationData', 'c')]))
+        P = st.get('self.P', DECL[('DefaultProblemData', 'P')])
+        A = st.get('self.A', DECL[('DefaultProblemData', 'A')])
+        q = st.get('self.q', DECL[('DefaultProblemData', 'q')])
+        b = st.get('self.b', DECL[('DefaultProblemData', 'b')])
+        where = 'at the end of one Ruiz iteration' if ret[0] == 'cut' else 'at the exit of equilibrate'
+        if None in (ud, ue, uc):
+            R.bad('invariant|scalings-known|%s%s' % (ret[0], tag), 'the recorded scalings are modified in a way the interpreter cannot follow (%s): d=%s e=%s c=%s' % (
+                where, ufmt(ud), ufmt(ue), ufmt(uc)), f.loc())
+            return
+        R.check(P == M(ud, ud, uc), 'invariant|P|%s%s' % (ret[0], tag),
+                '%s the internal P has scaling %s but the recorded scalings give row %s | col %s | %s: the factors applied to the data and '
+                'the factors recorded in d, c differ' % (where, vfmt(P), ufmt(ud), ufmt(ud), ufmt(uc)), f.loc())
+        R.check(A == M(ue, ud, ONE), 'invariant|A|%s%s' % (ret[0], tag),
+                '%s the internal A has scaling %s but the recorded scalings give row %s | col %s' % (where, vfmt(A), ufmt(ue), ufmt(ud)), f.loc())
+        R.check(q == V(umul(ud, uc)), 'invariant|q|%s%s' % (ret[0], tag),
+                '%s the internal q has scaling %s but d*c = %s' % (where, vfmt(q), ufmt(umul(ud, uc))), f.loc())
+        R.check(b == V(ue), 'invariant|b|%s%s' % (ret[0], tag), '%s the internal b has scaling %s but e = %s' % (where, vfmt(b), ufmt(ue)), f.loc())
+        if ret[0] != 'cut':
+            di = elem_unit(st.get('self.equilibration.dinv'))
+            ei = elem_unit(st.get('self.equilibration.einv'))
+            R.check(di == upow(ud, -1) and ei == upow(ue, -1), 'invariant|inverses' + tag,
+                    'at exit dinv/einv are %s / %s, expected the inverses of d / e (%s / %s)' % (ufmt(di), ufmt(ei), ufmt(upow(ud, -1)), ufmt(upow(ue, -1))), f.loc())
+    I.run(init, on_leaf=check)
+    R.check(n >= 4, 'equilibrate-paths' + tag, 'only %d effective paths through equilibrate were interpreted' % n)
+
+
+def _sym(k):
+    return ('var', 0, k)
+
+
+def update_forms(R, ctx, cfg, tag):
+    F = ctx.facts(cfg)
+    n = 0
+    for f in F.fns:
+        if f.name not in ('update_matrix', 'update_vector') or not f.file.endswith('data_updating.rs') or f.dk != 'AssocFn':
+            continue
+        st_name = strip_generics(f.impl_self or '')
+        if st_name.startswith('[T; 0]'):
+            continue
+        is_mat = f.name == 'update_matrix'
+        I = mk(ctx, cfg, f)
+        if is_mat:
+            init = {'arg3': V({'@L': Fraction(1)}), 'arg4': V({'@R': Fraction(1)}), 'arg5': S({'C': Fraction(1)}), 'self': V(ONE)}
+        else:
+            init = {'arg3': V({'@S': Fraction(1)}), 'arg4': S({'C': Fraction(1)}), 'self': V(ONE)}
+        I.param_default = {1: S(ONE)}
+        # delegating forms (Vec -> [T], tuple -> Zip, CscMatrix -> values): must forward their scalings unchanged
+        inner = [c for c in f.calls if c.callee.name == f.name]
+        direct = any(c.callee.name in ('copy_from_slice', 'lrscale', 'hadamard', 'index_mut') for c in f.calls)
+        if inner and not direct:
+            c = inner[0]
+            a = [canon(f.sym_operand(x)) for x in c.args]
+            want = ['arg2', 'arg3', 'arg4', 'arg5'] if is_mat else ['arg2', 'arg3', 'arg4']
+            n += 1
+            R.check(len(inner) == 1 and a[1:] == want, 'form-forwards|%s|%s%s' % (f.name, st_name[:40], tag),
+                    '%s for %s forwards (%s) to the underlying form, expected (target, %s)' % (f.name, st_name, ', '.join(a[1:]), ', '.join(want[1:])), f.loc(c.sp))
+            src = a[0]
+            R.check('self' in src, 'form-forwards-data|%s|%s%s' % (f.name, st_name[:40], tag), '%s for %s forwards the data %s' % (f.name, st_name, src), f.loc(c.sp))
+            continue
+        rows = I.run(init)
+        for val, ret, st in rows:
+            # only successful paths
+            written = st.get('arg2') if 'arg2' in st else None
+            nz = st.get('arg2.nzval')
+            disc = [v for k, v in val.items() if k.startswith('discr(arg5)') or k.startswith('discr(arg4)')]
+            some = disc[0] if disc else None
+            if written is None and nz is None:
+                continue
+            n += 1
+            cfac = {'C': Fraction(1)} if some == 1 else ONE
+            form = st_name[:40]
+            if is_mat:
+                if nz is not None:
+                    want = V(umul(umul({'L[row]': Fraction(1)}, {'R[col]': Fraction(1)}), cfac))
+                    R.check(nz == want, 'form|%s|%s|c=%s%s' % (f.name, form, some, tag),
+                            '%s for %s (index form): an updated entry gets scaling %s, expected lscale[row]*rscale[col]%s = %s' % (
+                                f.name, st_name, vfmt(nz), '*c' if some == 1 else '', vfmt(want)), f.loc())
+                else:
+                    want = M({'@L': Fraction(1)}, {'@R': Fraction(1)}, cfac)
+                    if some is None:
+                        # delegating forms: accept either, both must have been produced by the callee summary
+                        R.check(written is not None and written[0] == 'M' and written[1] == {'@L': Fraction(1)} and written[2] == {'@R': Fraction(1)},
+                                'form|%s|%s%s' % (f.name, form, tag), '%s for %s leaves the matrix with scaling %s' % (f.name, st_name, vfmt(written)), f.loc())
+                    else:
+                        R.check(written == want, 'form|%s|%s|c=%s%s' % (f.name, form, some, tag),
+                                '%s for %s leaves the matrix with scaling %s, expected %s' % (f.name, st_name, vfmt(written), vfmt(want)), f.loc())
+            else:
+                got = written
+                if got is None:
+                    continue
+                role = any(isinstance(k, str) and '[' in k for k in (elem_unit(got) or {}))
+                base = {'S[idx]': Fraction(1)} if role else {'@S': Fraction(1)}
+                want = V(umul(base, cfac))
+                if some is None:
+                    R.check(elem_unit(got) is not None and all(k in ('@S', 'S[idx]', 'C') for k in elem_unit(got)) and ('@S' in elem_unit(got) or 'S[idx]' in elem_unit(got)),
+                            'form|%s|%s%s' % (f.name, form, tag), '%s for %s leaves the vector with scaling %s' % (f.name, st_name, vfmt(got)), f.loc())
+                else:
+                    R.check(got == want, 'form|%s|%s|c=%s%s' % (f.name, form, some, tag),
+                            '%s for %s leaves the vector with scaling %s, expected %s: the update is not re-equilibrated like the '
+                            'stored data' % (f.name, st_name, vfmt(got), vfmt(want)), f.loc())
+    R.check(n >= 12, 'form-paths' + tag, 'only %d update-form paths were interpreted' % n)
+
+
+def export_units(R, ctx, cfg, tag):
+    F = ctx.facts(cfg)
+    f = F.one(name='save_to_file')
+    I = mk(ctx, cfg, f)
+    done = []
+
+    def on_event(I, st, e):
+        if e[0] == 'call' and e[1] in ('to_string', 'to_writer', 'to_vec', 'to_string_pretty') and not done:
+            done.append(1)
+            for fld, want in (('P', M(ONE, ONE, ONE)), ('q', V(ONE)), ('A', M(ONE, ONE, ONE)), ('b', V(ONE))):
+                got = st.get('self.data.%s' % fld, DECL[('DefaultProblemData', fld)])
+                R.check(got == want, 'exported|%s%s' % (fld, tag),
+                        'the serialised %s still carries the scaling %s: the file would not describe the user\'s problem' % (fld, vfmt(got)), f.loc())
+    I.run({}, on_event=on_event)
+    R.check(bool(done), 'export-serialise-point' + tag, 'no serialisation point reached in save_to_file')
+
+
+# ---------------------------------------------------------------------------
+# per-property entry points
+# ---------------------------------------------------------------------------
+
+CFGS = ['default']
 
 
 def c01(ctx, rep):
-    pass
+    for cfg in CFGS:
+        tag = ''
+        R = rep.rule('C01.R7', 'units: residual definitions are dimensionally the documented ones')
+        R.guard(lambda: residual_definitions(R, ctx, cfg, tag))
+        R5 = rep.rule('C01.R5', 'units: reported residuals / costs / gaps are un-equilibrated and de-homogenised; cached norms unit-free')
+        R5.guard(lambda: info_update_only(R5, ctx, cfg, tag))
+        R5.guard(lambda: norm_caches(R5, ctx, cfg, tag))
+        R6 = rep.rule('C01.R6u', 'units: returned vectors are in user coordinates')
+        R6.guard(lambda: unscale_units(R6, ctx, cfg, tag))
+
+
+def info_update_only(R, ctx, cfg, tag):
+    """Info::update for C01/C03: everything except the c-consistency of the infeasibility residuals (reported under C02)"""
+    sub = _Sub(R, drop_prefix='U-C|')
+    info_update(sub, ctx, cfg, tag)
+
+
+class _Sub:
+    """forwarding rule handle that drops violations whose key starts with a prefix (owned by another property)"""
+
+    def __init__(self, R, drop_prefix):
+        self.R, self.p = R, drop_prefix
+
+    def check(self, cond, key, msg, loc=None, detail=None):
+        if not cond and key.startswith(self.p):
+            return cond
+        return self.R.check(cond, key, msg, loc, detail)
+
+    def bad(self, key, msg, loc=None, detail=None):
+        if key.startswith(self.p):
+            return
+        self.R.bad(key, msg, loc, detail)
+
+    def ok(self, key, detail=None):
+        self.R.ok(key, detail)
 
 
 def c02(ctx, rep):
-    pass
+    for cfg in CFGS:
+        tag = ''
+        R = rep.rule('C02.R4', 'units: certificates and infeasibility residuals are free of d, e; common ray factor; c-consistency of the tests')
+
+        def body():
+            finals = info_update(_Sub(R, 'reported|'), ctx, cfg, tag)
+            unscale_units(R, ctx, cfg, tag)
+            infeasibility_tests(R, ctx, cfg, tag, finals)
+        R.guard(body)
+        R5 = rep.rule('C02.R5', 'units: partial residual definitions')
+        R5.guard(lambda: residual_definitions(R5, ctx, cfg, tag))
 
 
 def c03(ctx, rep):
-    pass
-
-
-def c19(ctx, rep):
-    pass
-
-
-def c10(ctx, rep):
-    pass
+    for cfg in CFGS:
+        tag = ''
+        R = rep.rule('C03.R2', 'units: objective values, residual figures and gaps reported in user units; cached norms unit-free')
+        R.guard(lambda: info_update_only(R, ctx, cfg, tag))
+        R.guard(lambda: norm_caches(R, ctx, cfg, tag))
 
 
 def c08(ctx, rep):
-    pass
+    for cfg in CFGS:
+        tag = ''
+        R = rep.rule('C08.R3', 'units: every update form re-applies the stored equilibration to the new values')
+        R.guard(lambda: update_forms(R, ctx, cfg, tag))
+        R.guard(lambda: norm_caches(R, ctx, cfg, tag))
+
+
+def c10(ctx, rep):
+    for cfg in CFGS:
+        tag = ''
+        R = rep.rule('C10.R1', 'units: relational invariant P~d d c, A~e d, q~d c, b~e, dinv=1/d, einv=1/e (inductive over one Ruiz iteration, cost scaling, rectification)')
+        R.guard(lambda: equilibrate_invariant(R, ctx, cfg, tag))
+
+
+def c19(ctx, rep):
+    for cfg in CFGS:
+        tag = ''
+        R = rep.rule('C19.R1u', 'units: exported P, q, A, b are un-equilibrated')
+        R.guard(lambda: export_units(R, ctx, cfg, tag))
